@@ -271,6 +271,28 @@ fn is_known(known: &[KnownFinding], prop: &str, sig: &str) -> bool {
 
 /// Run `cases` generated cases of `engine` from `strategy`, sharded over threads.
 /// Each shard is a pure function of (seed, salt, shard index); results are merged in shard order.
+/// Runs one case; a panic that escapes the engine is judged by where it was raised: in the library
+/// (or in a dependency the library drives) it is a violation of the property under check - the case
+/// made library code panic on the harness thread -, in the harness it is an internal error.
+pub fn run_case_guarded<E: Engine>(engine: &E, case: &E::Case, prop: &str) -> CaseReport {
+    match std::panic::catch_unwind(std::panic::AssertUnwindSafe(|| engine.run_case(case))) {
+        Ok(r) => r,
+        Err(p) => {
+            let msg = p.downcast_ref::<String>().cloned().or_else(|| p.downcast_ref::<&str>().map(|s| s.to_string())).unwrap_or_else(|| "panic".into());
+            let loc = crate::panichook::last_location();
+            let mut rep = CaseReport::default();
+            if crate::panichook::in_library(&loc) {
+                let file = loc.rsplit('/').next().unwrap_or(&loc).split(':').next().unwrap_or("").trim_end_matches(".rs").to_string();
+                rep.violate(format!("{prop}/panic-in-library/{file}"), format!("engine {}: library code panicked at {loc}: {msg}", engine.name()));
+            } else {
+                rep.internal_error = Some(format!("engine {} panicked at {loc}: {msg}", engine.name()));
+            }
+            let _ = crate::panichook::take_all();
+            rep
+        }
+    }
+}
+
 pub fn run_generated<E, S>(
     ctx: &Ctx,
     engine: &E,
@@ -355,7 +377,7 @@ where
         if std::env::var_os("VERIF_ECHO").is_some() {
             eprintln!("CASE {}", serde_json::to_string(&case).unwrap_or_default());
         }
-        let report = engine.run_case(&case);
+        let report = run_case_guarded(engine, &case, &ctx.prop);
         PROGRESS.fetch_add(1, std::sync::atomic::Ordering::Relaxed);
         out.evaluations += 1;
         out.noop_ops += report.noop_ops;
@@ -406,7 +428,7 @@ where
                     }
                     iters += 1;
                     let cur = tree.current();
-                    let rep = engine.run_case(&cur);
+                    let rep = run_case_guarded(engine, &cur, &ctx.prop);
                     PROGRESS.fetch_add(1, std::sync::atomic::Ordering::Relaxed);
                     let hit = rep
                         .violations
@@ -457,7 +479,7 @@ pub fn run_listed<E: Engine>(ctx: &Ctx, engine: &E, leg: &str, cases: Vec<E::Cas
                     let mut out = Outcome::default();
                     let mut seen: BTreeSet<String> = BTreeSet::new();
                     for case in chunk {
-                        let report = engine.run_case(&case);
+                        let report = run_case_guarded(engine, &case, &ctx.prop);
                         PROGRESS.fetch_add(1, std::sync::atomic::Ordering::Relaxed);
                         out.evaluations += 1;
                         out.noop_ops += report.noop_ops;
@@ -729,7 +751,7 @@ pub fn finish(ctx: &Ctx, started: Instant, out: Outcome, fin: Finish) -> i32 {
 pub fn replay_one<E: Engine>(ctx: &Ctx, engine: &E, rf: &ReplayFile) -> Result<i32, String> {
     let case: E::Case =
         serde_json::from_value(rf.case.clone()).map_err(|e| format!("bad case: {e}"))?;
-    let report = engine.run_case(&case);
+    let report = run_case_guarded(engine, &case, &ctx.prop);
     if let Some(e) = report.internal_error {
         return Err(e);
     }
